@@ -43,10 +43,11 @@ theorem shouldAcceptNomination_inline (a : Agent) (m : Msg) :
       by_cases h : v > last <;> simp [h, ← hl]
 
 /-- Model of `shouldSwitchSelectedPair` (the `sw` of `cldHandleRequest`). -/
-def shouldSwitch (hasSelected samePair hasValue needsPrio : Bool) (selectedPrio pairPrio : Nat) : Bool :=
+def shouldSwitch (hasSelected samePair hasValue hasLast needsPrio : Bool) (selectedPrio pairPrio : Nat) : Bool :=
   if !hasSelected then true
   else if samePair then false
   else if hasValue then true
+  else if hasLast then false
   else !needsPrio || decide (selectedPrio < pairPrio)
 
 /-- the inline `sw` of `cldHandleRequest` -/
@@ -56,13 +57,15 @@ def inlineSwitch (a : Agent) (id : Nat) (m : Msg) (p : Pair) : Bool :=
   | some sp =>
     if sp.id == id then false
     else if m.nom.isSome then true
+    else if a.lastNomination.isSome then false
     else !needsPrioCheck a.cfg || a.pairPrio sp < a.pairPrio p
 
 theorem shouldSwitch_inline (a : Agent) (id : Nat) (m : Msg) (p : Pair) :
     inlineSwitch a id m p =
       match a.selected.bind a.pairById with
-      | none => shouldSwitch false false m.nom.isSome (needsPrioCheck a.cfg) 0 (a.pairPrio p)
-      | some sp => shouldSwitch true (sp.id == id) m.nom.isSome (needsPrioCheck a.cfg) (a.pairPrio sp) (a.pairPrio p) := by
+      | none => shouldSwitch false false m.nom.isSome a.lastNomination.isSome (needsPrioCheck a.cfg) 0 (a.pairPrio p)
+      | some sp => shouldSwitch true (sp.id == id) m.nom.isSome a.lastNomination.isSome (needsPrioCheck a.cfg)
+          (a.pairPrio sp) (a.pairPrio p) := by
   unfold inlineSwitch shouldSwitch
   split <;> simp
 
@@ -106,7 +109,9 @@ def cldNominate (a : Agent) (m : Msg) (id : Nat) : Agent × List Out :=
     | some p =>
       if p.state == .succeeded then
         if inlineSwitch a id m p then a.select id else (a, [])
-      else (a.modPair id fun p => { p with nomOnSuccess := true, deferredNom := m.nom }, [])
+      else if m.nom.isSome || p.deferredNom.isNone then
+        (a.modPair id fun p => { p with nomOnSuccess := true, deferredNom := m.nom }, [])
+      else (a, [])
   else (a, [])
 
 /-- what the controlled selector does with a request it did not reject: nomination effect, success
@@ -136,7 +141,9 @@ def cldBody (a : Agent) (id : Nat) (now : Nat) (m : Msg) (l r : Cand) : Agent ×
         | some p =>
           if p.state == .succeeded then
             if inlineSwitch a id m p then a.select id else (a, [])
-          else (a.modPair id fun p => { p with nomOnSuccess := true, deferredNom := m.nom }, [])
+          else if m.nom.isSome || p.deferredNom.isNone then
+            (a.modPair id fun p => { p with nomOnSuccess := true, deferredNom := m.nom }, [])
+          else (a, [])
       else (a, [])
     let (a, o1) := a.sendSuccess now m l r
     let (a, o2) :=
